@@ -292,19 +292,25 @@ class GeckoAsyncSpaMan(ABC, AsyncTasks):
 
         This API will connect to the specified spa using the supplied descriptor"""
         assert self._facade is None
+        spa = None
 
         try:
             self._spa_name = spa_descriptor.name
             await self._handle_event(GeckoSpaEvent.CONNECTION_STARTED)
-            self._spa = GeckoAsyncSpa(
+            spa = GeckoAsyncSpa(
                 self._client_id, spa_descriptor, self, self._handle_event
             )
-            await self._spa.connect()
+            self._spa = spa
+            await spa.connect()
             # Check state now
             if self._spa_state == GeckoSpaState.SPA_READY:
                 self._facade = GeckoAsyncFacade(self._spa, self)
 
         finally:
+            if spa is not None and self._spa is not spa:
+                # A reset let go of this spa while it was still connecting, so
+                # nobody else will release its endpoint and tasks
+                await spa.disconnect()
             await self._handle_event(
                 GeckoSpaEvent.CONNECTION_FINISHED, facade=self._facade
             )
